@@ -153,6 +153,7 @@ var docArity = map[string][2]int64{
 
 type arityClient struct {
 	BaseClient
+	InlinePure
 	p      *Program
 	row    kfRow
 	fn     string
